@@ -3,6 +3,8 @@
 # (used in the background through `vp run` to flush out rare oracle false alarms / rare violations)
 first=${1:-101}; n=${2:-8}; w=${3:-6}
 cd "$(dirname "$0")" || exit 2
+# with `vp run --with-repo` use the snapshot of /repo HEAD, so that edits to /repo do not disturb the soak
+if [ -n "$VP_RUN_REPO" ]; then IVSIM_REPO=$VP_RUN_REPO; export IVSIM_REPO; fi
 python3 build.py asan tsan >/dev/null || exit 2
 props=$(python3 -c "import check; print(' '.join(sorted(check.PROPS)))")
 s=$first
